@@ -5,6 +5,8 @@ CONSTANTS
   MaxSess = 3
   MaxRpc = 1
   InLock = TRUE
+  MaxWedged = 0
   MaxBurst = 2
+  MaxHold = 0
   Depth = 10
 CHECK_DEADLOCK FALSE
